@@ -156,6 +156,13 @@ Lemma combine_map_r {A B D} (f : B -> D) (l1 : list A) (l2 : list B) :
   combine l1 (map f l2) = map (fun p => (fst p, f (snd p))) (combine l1 l2).
 Proof. revert l2; induction l1; intros [|y l2]; simpl; auto. f_equal; auto. Qed.
 
+Lemma map_combine_fst {A B D} (g : A -> D) (l1 : list A) (l2 : list B) :
+  length l1 = length l2 -> map (fun jo => g (fst jo)) (combine l1 l2) = map g l1.
+Proof.
+  revert l2. induction l1 as [|x r IH]; intros [|y l2] Hl; simpl in *; try discriminate; auto.
+  f_equal. apply IH. lia.
+Qed.
+
 Lemma list_nat_eqb_eq a b : list_nat_eqb a b = true -> a = b.
 Proof.
   revert b. induction a as [|x a IH]; intros [|y b] H; simpl in H; try discriminate; auto.
@@ -311,7 +318,7 @@ Section Avx2Proofs.
     intros Hm Hp Hi Hi' Hold. unfold avx2_row.
     replace (length m <=? i) with false by (symmetry; apply Nat.leb_gt; lia).
     rewrite avx2_acc0. unfold pssm_mem. rewrite avx2_inner_ok; auto.
-    - simpl. f_equal. rewrite avx2_store_ok by auto.
+    - cbn [rbind]. f_equal. rewrite avx2_store_ok by auto.
       apply map_ext_in. intros k _. unfold cell_of. f_equal.
       apply terms_from_shift. intros j Hj. rewrite nth_skipn. reflexivity.
     - rewrite skipn_length. lia.
@@ -332,13 +339,167 @@ Section Avx2Proofs.
       rewrite map_length, combine_length, seq_length in Epm. simpl in Epm. lia. }
     rewrite <- Epm.
     rewrite (rows_update_all _ (fun i _ => map (cell_of add zero K pssm (sq_mat q) i) (seq 0 32))).
-    - f_equal. set (bf := b0 :: buf') in *.
-      assert (Hl : length bf = length (seq a (b - a))) by (rewrite seq_length; auto).
-      clearbody bf. revert bf Hl. clear. generalize (seq a (b - a)).
-      induction l as [|x r IH]; intros [|y bf] Hl; simpl in *; try discriminate; auto.
-      f_equal. apply IH. lia.
+    - f_equal. cbn [fst snd].
+      apply (map_combine_fst (fun i => map (cell_of add zero K pssm (sq_mat q) i) (seq 0 32))).
+      rewrite seq_length. auto.
     - rewrite seq_length. auto.
     - intros j Hj. rewrite seq_length in Hj. rewrite seq_nth by auto.
       apply avx2_row_ok; auto; try lia. apply Hrows. lia.
   Qed.
 End Avx2Proofs.
+
+(* ---------- the two AVX2 look-ups ---------- *)
+
+Lemma lookup_permute_ok {T} (zero : T) K (prow pad : list T) syms :
+  K <= 8 -> length prow = K -> Forall (fun s => s < K) syms ->
+  lookup_permute zero (prow ++ pad) (map N.of_nat syms) = map (fun s => nth s prow zero) syms.
+Proof.
+  intros HK Hl Hs. unfold lookup_permute, permutevar8x32. rewrite map_map.
+  apply map_ext_in. intros s Hin. rewrite Forall_forall in Hs. specialize (Hs s Hin).
+  rewrite land7_of_nat by lia. rewrite nth_firstn_lt by lia. apply app_nth1. lia.
+Qed.
+
+Lemma lookup_gather_ok {T} (zero : T) K (prow pad : list T) syms :
+  length prow = K -> Forall (fun s => s < K) syms ->
+  lookup_gather zero (prow ++ pad) (map N.of_nat syms) = map (fun s => nth s prow zero) syms.
+Proof.
+  intros Hl Hs. unfold lookup_gather, i32gather. rewrite map_map.
+  apply map_ext_in. intros s Hin. rewrite Forall_forall in Hs. specialize (Hs s Hin).
+  rewrite Nat2N.id. apply app_nth1. lia.
+Qed.
+
+(* what the reflection check establishes *)
+Lemma avx2_layout_facts cs :
+  avx2_layout_ok cs = true ->
+  exists kss,
+    all_some (map mask_cols (ac_masks cs)) = Some kss /\
+    (forall ks k, In ks kss -> In k ks -> k < 32) /\
+    (forall ks, In ks kss -> length ks = 8) /\
+    (forall ia ib imm, In (ia, ib, imm) (ac_perm cs) ->
+       N.testbit imm 3 = false /\ N.testbit imm 7 = false) /\
+    avx2_final_cols cs kss = seq 0 32.
+Proof.
+  unfold avx2_layout_ok. destruct (all_some (map mask_cols (ac_masks cs))) as [kss|]; [|discriminate].
+  intros H. exists kss. split; [reflexivity|].
+  apply andb_true_iff in H. destruct H as [H H4]. apply andb_true_iff in H. destruct H as [H H3].
+  apply andb_true_iff in H. destruct H as [H1 H2].
+  rewrite forallb_forall in H1. rewrite forallb_forall in H2.
+  repeat split.
+  - intros ks k Hks Hk. specialize (H1 ks Hks). apply andb_true_iff in H1. destruct H1 as [_ H1].
+    rewrite forallb_forall in H1. apply Nat.ltb_lt. apply H1. exact Hk.
+  - intros ks Hks. specialize (H1 ks Hks). apply andb_true_iff in H1. destruct H1 as [H1 _].
+    apply Nat.eqb_eq. exact H1.
+  - specialize (H2 _ H). cbv beta iota in H2.
+    apply andb_true_iff in H2. destruct H2 as [H2 _]. apply andb_true_iff in H2. destruct H2 as [_ H2].
+    apply negb_true_iff. exact H2.
+  - specialize (H2 _ H). cbv beta iota in H2.
+    apply andb_true_iff in H2. destruct H2 as [_ H2]. apply negb_true_iff. exact H2.
+  - apply list_nat_eqb_eq. exact H4.
+Qed.
+
+(* ---------- the wrapper guards ---------- *)
+
+Section Guard.
+  Context {T : Type}.
+  Variable add : T -> T -> T.
+  Variable zero : T.
+  Variable C K : nat.
+
+  Lemma sc_resize_rows (old : sscores T) n maxi r :
+    sc_wf C old -> r < n -> length (nth r (sc_mat (sc_resize zero C old n maxi)) []) = C.
+  Proof.
+    intros Hw Hr. unfold sc_resize. cbn [sc_mat].
+    apply m_resize_row_length; auto. apply repeat_length.
+  Qed.
+
+  (* a kernel that fills the resized buffer with the generic cells makes the guarded
+     wrapper agree with the generic pipeline (same values, panics in the same cases) *)
+  Lemma simd_guard_equiv pssm q a b old kernel :
+    0 < C -> mat_wf C K (sq_mat q) -> pssm_wf K pssm -> sc_wf C old ->
+    1 <= length pssm -> length pssm - 1 <= sq_wrap q ->
+    (a < b -> b + length pssm - 1 <= length (sq_mat q) -> length pssm <= sq_len q ->
+     forall buf, length buf = b - a -> (forall r, r < length buf -> length (nth r buf []) = C) ->
+       kernel buf = Ok (map (fun r => map (cell_of add zero K pssm (sq_mat q) r) (seq 0 C)) (seq a (b - a)))) ->
+    res_equiv (simd_guard zero C (length pssm) q a b old kernel)
+              (generic_rows_into add zero C pssm q a b old).
+  Proof.
+    intros HC Hm Hp Hw HM Hwrap Hk. unfold simd_guard.
+    replace (length pssm =? 0) with false by (symmetry; apply Nat.eqb_neq; lia).
+    replace (sq_wrap q <? length pssm - 1) with false by (symmetry; apply Nat.ltb_ge; lia).
+    destruct ((sq_len q <? length pssm) || negb (a <? b)) eqn:E.
+    - unfold generic_rows_into. rewrite E. simpl. reflexivity.
+    - apply orb_false_iff in E. destruct E as [E1 E2].
+      apply Nat.ltb_ge in E1. apply negb_false_iff in E2. apply Nat.ltb_lt in E2.
+      destruct (length (sq_mat q) <? b + length pssm - 1) eqn:E3.
+      + apply Nat.ltb_lt in E3.
+        pose proof (generic_rows_into_panic add zero C K pssm q a b old HC Hm Hp E1 E2 E3 HM) as Hpanic.
+        destruct (generic_rows_into add zero C pssm q a b old); simpl in *; auto; discriminate.
+      + apply Nat.ltb_ge in E3.
+        rewrite Hk; auto.
+        * rewrite (generic_rows_into_ok add zero C K); auto. simpl. reflexivity.
+        * unfold sc_resize. cbn [sc_mat]. apply m_resize_length.
+        * intros r Hr. unfold sc_resize in Hr. cbn [sc_mat] in Hr. rewrite m_resize_length in Hr.
+          apply sc_resize_rows; auto.
+  Qed.
+
+  Lemma simd_guard_unconfigured M q a b old kernel :
+    1 <= M -> sq_wrap q < M - 1 -> simd_guard zero C M q a b old kernel = Panic 31.
+  Proof.
+    intros HM Hw. unfold simd_guard.
+    replace (M =? 0) with false by (symmetry; apply Nat.eqb_neq; lia).
+    replace (sq_wrap q <? M - 1) with true by (symmetry; apply Nat.ltb_lt; lia).
+    reflexivity.
+  Qed.
+End Guard.
+
+(* ---------- AVX2 wrappers = generic ---------- *)
+
+Section Avx2Eq.
+  Context {T : Type}.
+  Variable add : T -> T -> T.
+  Variable zero : T.
+  Variable K : nat.
+
+  Theorem avx2_permute_equiv cs pssm pads q a b old :
+    avx2_layout_ok cs = true -> K <= 8 ->
+    mat_wf 32 K (sq_mat q) -> pssm_wf K pssm -> sc_wf 32 old ->
+    1 <= length pssm -> length pssm - 1 <= sq_wrap q ->
+    res_equiv (avx2_permute_rows_into add zero cs pssm pads q a b old)
+              (generic_rows_into add zero 32 pssm q a b old).
+  Proof.
+    intros Hlay HK Hm Hp Hw HM Hwrap.
+    destruct (avx2_layout_facts cs Hlay) as [kss [H1 [H2 [H3 [H4 H5]]]]].
+    unfold avx2_permute_rows_into. apply (simd_guard_equiv add zero 32 K); auto; try lia.
+    intros Hab Hb HL buf Hlen Hrows.
+    apply (avx2_kernel_ok add zero K cs (lookup_permute zero) pads) with (kss := kss); auto.
+    intros prow pad syms Hl Hs. apply (lookup_permute_ok zero K); auto.
+  Qed.
+
+  Theorem avx2_gather_equiv cs pssm pads q a b old :
+    avx2_layout_ok cs = true ->
+    mat_wf 32 K (sq_mat q) -> pssm_wf K pssm -> sc_wf 32 old ->
+    1 <= length pssm -> length pssm - 1 <= sq_wrap q ->
+    res_equiv (avx2_gather_rows_into add zero cs pssm pads q a b old)
+              (generic_rows_into add zero 32 pssm q a b old).
+  Proof.
+    intros Hlay Hm Hp Hw HM Hwrap.
+    destruct (avx2_layout_facts cs Hlay) as [kss [H1 [H2 [H3 [H4 H5]]]]].
+    unfold avx2_gather_rows_into. apply (simd_guard_equiv add zero 32 K); auto; try lia.
+    intros Hab Hb HL buf Hlen Hrows.
+    apply (avx2_kernel_ok add zero K cs (lookup_gather zero) pads) with (kss := kss); auto.
+    intros prow pad syms Hl Hs. apply (lookup_gather_ok zero K); auto.
+  Qed.
+
+  Theorem avx2_equiv csp csg pssm pads q a b old :
+    avx2_layout_ok csp = true -> avx2_layout_ok csg = true ->
+    mat_wf 32 K (sq_mat q) -> pssm_wf K pssm -> sc_wf 32 old ->
+    1 <= length pssm -> length pssm - 1 <= sq_wrap q ->
+    res_equiv (avx2_rows_into add zero csp csg K pssm pads q a b old)
+              (generic_rows_into add zero 32 pssm q a b old).
+  Proof.
+    intros Hp Hg Hm Hpw Hw HM Hwrap. unfold avx2_rows_into.
+    destruct (K <=? 8) eqn:E.
+    - apply Nat.leb_le in E. apply avx2_permute_equiv; auto.
+    - apply avx2_gather_equiv; auto.
+  Qed.
+End Avx2Eq.
